@@ -798,6 +798,42 @@ theorem config_write_guard (db : Db) (now : Int) (m : Msg) (allowShell : Bool)
           · exact absurd h1 hc
           · exact ⟨h1, cfgLoop_nonowner_settable opSettable [root] rest ownerS cap hg hc⟩
 
+/-- `Config.channel` with several channels: a channel's value is written only if the check made
+FOR THAT CHANNEL passed (the permission for the first listed channel says nothing about the others) -/
+theorem config_channel_each_checked (check : Str → CfgOut) (chs : List Str) (ch : Str)
+    (h : ch ∈ (setChannels check chs).1) : check ch = .pass := by
+  induction chs with
+  | nil => simp [setChannels] at h
+  | cons c rest ih =>
+    unfold setChannels at h
+    cases hc : check c with
+    | pass =>
+      simp only [hc, List.mem_cons] at h
+      rcases h with h | h
+      · rw [h]; exact hc
+      · exact ih h
+    | readOnly => simp [hc] at h
+    | noCapability x => simp [hc] at h
+    | crash e => simp [hc] at h
+
+/-- … and nothing after the first refused channel is written -/
+theorem config_channel_stops (check : Str → CfgOut) (pre post : List Str) (ch : Str)
+    (hpre : ∀ c ∈ pre, check c = .pass) (hch : check ch ≠ .pass) :
+    setChannels check (pre ++ ch :: post) = (pre, check ch) := by
+  induction pre with
+  | nil =>
+    simp only [List.nil_append]
+    unfold setChannels
+    cases hc : check ch with
+    | pass => exact absurd hc hch
+    | readOnly => rfl
+    | noCapability x => rfl
+    | crash e => rfl
+  | cons c rest ih =>
+    have h1 := hpre c List.mem_cons_self
+    have h2 := ih (fun x hx => hpre x (List.mem_cons_of_mem _ hx))
+    simp only [List.cons_append, setChannels, h1, h2]
+
 /-- read-only names (`supybot.commands.allowShell` off → on, `supybot.directories.*`) are never
 written through the bot unless `allowShell` is already on -/
 theorem readonly_never_written (db : Db) (now : Int) (m : Msg)
@@ -952,7 +988,15 @@ theorem callgraph_ok :
 
 /-- the shape of the gate code the model mirrors (each fact is a syntactic check of the current
 source by the extractor) -/
-theorem gate_shape_ok : Gen.gateShape.all (fun s => s.2) = true ∧ Gen.gateShape.length = 13 := by
+theorem gate_shape_ok : Gen.gateShape.all (fun s => s.2) = true ∧ Gen.gateShape.length = 20 := by
+  decide
+
+/-- a refusal is a `raise`: no call site of `errorNoCapability` passes `Raise=False` (the default is
+True, and `gate_shape_ok` pins that the function raises whatever the configured message text is —
+also the empty one), so nothing after such a call runs -/
+theorem refusals_raise :
+    Gen.noCapabilitySites.all (fun s => s.2 == "True" || s.2 == "default") = true ∧
+    Gen.noCapabilitySites.length ≥ 20 := by
   decide
 
 end C01
